@@ -36,10 +36,33 @@ def sh(cmd, cwd=None, timeout=None, check=False, input=None):
 # --------------------------------------------------------------------------------------------
 # 1. translator
 def run_translator(parts=('consts',)):
-    r = sh([sys.executable, os.path.join(ROOT, 'tools', 'gen.py')] + list(parts))
+    r = sh([sys.executable, os.path.join(ROOT, 'tools', 'gen.py')])
     if r.returncode != 0:
         raise Broken('translator', 'tools/gen.py failed', r.stdout[-3000:])
-    return r.stdout.strip()
+    out = r.stdout.strip()
+    if 'ast' in parts:
+        r = sh([sys.executable, os.path.join(ROOT, 'tools', 'gen_ast.py')])
+        if r.returncode != 0:
+            raise Broken('translator', 'tools/gen_ast.py failed (construct outside the translated Rust subset?)', r.stdout[-3000:])
+        out += '\n' + r.stdout.strip()
+    return out
+
+
+def check_lean_printer():
+    """the elaborated Generated/Layout/*.lean programs, printed back, must equal Generated/ast/*.txt byte for byte"""
+    d = os.path.join(CACHE, 'dump')
+    os.makedirs(d, exist_ok=True)
+    r = sh(['lake', 'env', 'lean', '--run', 'DumpAst.lean', d], cwd=LEAN, timeout=1800)
+    if r.returncode != 0:
+        raise Broken('translator', 'DumpAst.lean failed', r.stdout[-2000:])
+    src = os.path.join(LEAN, 'Swiftness', 'Generated', 'ast')
+    n = 0
+    for f in sorted(os.listdir(d)):
+        if f.endswith('.txt'):
+            n += 1
+            if open(os.path.join(d, f)).read() != open(os.path.join(src, f)).read():
+                raise Broken('translator', f'elaborated Lean program differs from the driver text program: {f}')
+    return n
 
 
 # --------------------------------------------------------------------------------------------
@@ -189,8 +212,14 @@ def run_hx(binary, lines, **kw):
     return run_lines([binary], lines, **kw)
 
 
+DRV_LAYOUTS = None   # set by a property module that needs translated programs loaded by the driver
+
+
 def run_drv(features, lines, mode='model', **kw):
-    return run_lines([DRV, mode, hash_of(features), stone_of(features)], lines, **kw)
+    cmd = [DRV, mode, hash_of(features), stone_of(features)]
+    if DRV_LAYOUTS:
+        cmd += [os.path.join(LEAN, 'Swiftness', 'Generated', 'ast'), ','.join(DRV_LAYOUTS)]
+    return run_lines(cmd, lines, **kw)
 
 
 def parallel_map(fn, chunks, workers=16):
